@@ -951,7 +951,8 @@ impl TryFrom<&str> for LocationPrefix {
     type Error = &'static str;
 
     fn try_from(value: &str) -> Result<Self, Self::Error> {
-        let c = value.chars().nth(0);
+        // The prefix letters are case insensitive
+        let c = value.chars().nth(0).map(|c| c.to_ascii_uppercase());
         LocationPrefix::try_from(c)
     }
 }
@@ -999,7 +1000,8 @@ impl TryFrom<&str> for SizePrefix {
     type Error = &'static str;
 
     fn try_from(value: &str) -> Result<Self, Self::Error> {
-        let c = value.chars().nth(0);
+        // The prefix letters are case insensitive
+        let c = value.chars().nth(0).map(|c| c.to_ascii_uppercase());
         SizePrefix::try_from(c)
     }
 }
@@ -1351,8 +1353,11 @@ pub struct AddressAssignment {
 }
 
 lazy_static! {
-    static ref DIRECT_ADDRESS_UNASSIGNED: Regex = Regex::new(r"%([IQM])\*").unwrap();
-    static ref DIRECT_ADDRESS: Regex = Regex::new(r"%([IQM])([XBWDL])?(\d(\.\d)*)").unwrap();
+    // These must accept exactly what the lexer's direct address tokens accept: any letter
+    // case and multi-digit (ASCII) address components.
+    static ref DIRECT_ADDRESS_UNASSIGNED: Regex = Regex::new(r"(?i)%([IQM])\*").unwrap();
+    static ref DIRECT_ADDRESS: Regex =
+        Regex::new(r"(?i)%([IQM])([XBWDL])?([0-9]+(\.[0-9]+)*)").unwrap();
 }
 
 impl TryFrom<&str> for AddressAssignment {
